@@ -63,6 +63,8 @@ def declare_c19(E):
                                    "held(self.lock)"],
                               havoc_fields=["self.out_window_size", "self.closed", "self.eof_sent", "self.eof_received", "self.active", "self.in_window_sofar"],
                               havoc_ghosts=["sync_out_window_size"],
+                              # a waiter woken because the channel closed (or EOF was sent) must stop waiting
+                              exit_when="self.closed or self.eof_sent",
                               vars={"timeout": "opt[float]", "then": "float"})},
                raises={"TimeoutError": {"when": "True", "ensures": ["self.out_window_size >= 0", "self.in_window_sofar >= 0"]}},
                returns="int", modifies=["self.out_window_size", "self.closed", "self.eof_sent", "self.eof_received", "self.active", "self.in_window_sofar"])
